@@ -275,6 +275,11 @@ class Walker:
                 continue
             if isinstance(v, ast.Constant) or (isinstance(v, ast.UnaryOp) and isinstance(v.op, ast.USub) and isinstance(v.operand, ast.Constant)):
                 return v
+            if isinstance(v, ast.Name) and name.startswith('_'):
+                # `_position_type = PositionComponent`: a private class-level name for a class of the package
+                r = self.prog.resolve_name(v.id, c.module) if hasattr(c, 'module') else None
+                if r is not None and r[0] == 'class':
+                    return v
             return None
         return None
 
@@ -1051,8 +1056,8 @@ class _Ctx:
         if not wanted or callee.qualname in self.inline_stack or callee.qualname == self.fn.qualname or \
                 callee.name in self.opts.no_full_inline:
             return None
-        if _is_single_return(callee, chains=self.w.is_new_function(callee)) is not None or _straight_line(callee) is not None:
-            return None         # evaluated in place like an expression
+        if _is_single_return(callee, chains=False) is not None or _straight_line(callee) is not None:
+            return None         # evaluated in place like an expression (a guard-clause chain forks the path like its if-statements)
         return callee, tgt
 
     def _hoist_nested(self, s: ast.stmt, states: List[State]):
@@ -2191,6 +2196,31 @@ class _Ctx:
                     return (owner.qualname, f)
         return None
 
+    def _namedtuple_items(self, t: Term, st: State):
+        """The fields, in order, of an object built in this call from a package NamedTuple class: `X(a, b)` is also the tuple (a, b)."""
+        t0 = strip_at(t)
+        if isinstance(t0, IfT):
+            a, b = self._namedtuple_items(t0.a, st), self._namedtuple_items(t0.b, st)
+            if a is None or b is None or len(a.items) != len(b.items):
+                return None
+            def pick(x, y):
+                if x == y:
+                    return x
+                if isinstance(x, Const) and isinstance(y, Const) and isinstance(x.value, bool) and isinstance(y.value, bool):
+                    return BoolT(t0.cond if x.value else f_not(t0.cond))
+                return IfT(t0.cond, x, y)
+            return TupleT(tuple(pick(x, y) for x, y in zip(a.items, b.items)))
+        if not (isinstance(t0, App) and t0.fn.startswith('new:')):
+            return None
+        ci = self.prog.classes.get(t0.fn[4:])
+        names = getattr(ci.node, '_namedtuple_fields', None) if ci is not None else None
+        if not names:
+            return None
+        vals = [self._ctor_field(t0, nm, st) for nm in names]
+        if any(v is None for v in vals):
+            return None
+        return TupleT(tuple(vals))
+
     def _ctor_field(self, obj: App, attr: str, st: State):
         ci = self.prog.classes.get(obj.fn[4:])
         if ci is None:
@@ -2369,6 +2399,9 @@ class _Ctx:
             if not loopvar:
                 self.emit(st, 'assign', node, name=t.id, value=v)
         elif isinstance(t, (ast.Tuple, ast.List)):
+            nt_ = self._namedtuple_items(v, st)
+            if nt_ is not None:
+                v = nt_
             if isinstance(v, Fresh) and st.contents.get(v) is not None and len(st.contents[v]) == len(t.elts):
                 v = TupleT(tuple(st.contents[v]))
             if isinstance(v, IfT) and isinstance(v.a, TupleT) and isinstance(v.b, TupleT) and \
@@ -2597,6 +2630,15 @@ class _Ctx:
         if path in st.heap:
             return st.heap[path]
         nb = strip_at(base)
+        if isinstance(nb, IfT):
+            # a field of `X(a, b) if c else X(d)`: the conditional of the fields
+            arm = strip_at(nb.a)
+            ci_nt = self.prog.classes.get(arm.fn[4:]) if isinstance(arm, App) and arm.fn.startswith('new:') else None
+            names_nt = getattr(ci_nt.node, '_namedtuple_fields', None) if ci_nt is not None else None
+            if names_nt and e.attr in names_nt:
+                items_nt = self._namedtuple_items(nb, st)
+                if items_nt is not None:
+                    return items_nt.items[names_nt.index(e.attr)]
         if isinstance(nb, App) and nb.fn.startswith('new:'):
             # a field of an object built in this call by a constructor that just stores its arguments (a dataclass, a record):
             # the argument the field was given
@@ -2682,6 +2724,9 @@ class _Ctx:
                 return Fresh('copy', (base,), e.lineno)
             return App('slice', (base,) + parts)
         idx = self.ev(e.slice, st)
+        nt = self._namedtuple_items(base, st)
+        if nt is not None:
+            base = nt
         if isinstance(base, TupleT) and isinstance(idx, Num) and isinstance(idx.value, Fraction) \
                 and idx.value.denominator == 1 and 0 <= idx.value < len(base.items):
             return base.items[int(idx.value)]
@@ -3023,7 +3068,14 @@ class _Ctx:
 
     def inline_call(self, callee: FuncInfo, recv: Optional[Term], args: List[Term], kw: Dict[str, Term],
                     st: State, node) -> Optional[Term]:
-        if len(self.inline_stack) >= self.opts.inline_depth:
+        # frames of helpers that are new to the API do not count: a documented function split into private steps is still that function
+        eff_depth = sum(1 for q in self.inline_stack if not (q in self.prog.functions and self.w.is_new_function(self.prog.functions[q])))
+        if eff_depth < self.opts.inline_depth <= len(self.inline_stack) and len(self.inline_stack) < 8:
+            pass
+        elif len(self.inline_stack) >= self.opts.inline_depth and not (
+                self.opts.inline_depth >= 1 and len(self.inline_stack) < 4 and self.w.is_new_function(callee) and
+                all(self.prog.functions.get(q) is not None and self.w.is_new_function(self.prog.functions[q]) for q in self.inline_stack[-1:])):
+            # (a predicate new to the API that is built from other such predicates is still one expression)
             return None
         if callee.name in self.opts.no_inline or callee.qualname in self.opts.no_inline:
             return None
@@ -3722,6 +3774,22 @@ class _Ctx:
             return r
         # ---- external / unknown
         fn_term = None
+        fld_call = None
+        if recv is not None and isinstance(f, ast.Attribute) and tgt.kind == 'unknown':
+            # `hook.func(params)` where `hook` was built in this call by a storing constructor (a NamedTuple / dataclass record) and
+            # `func` is one of its fields: a call of the value that was stored, not a method of the record
+            nb_ = strip_at(recv)
+            if isinstance(nb_, App) and nb_.fn.startswith('new:'):
+                ci_ = self.prog.classes.get(nb_.fn[4:])
+                if ci_ is not None and not self.prog.lookup_method(ci_, f.attr):
+                    fld_call = self._ctor_field(nb_, f.attr, st)
+        if fld_call is not None:
+            fn_term = fld_call
+            r = App('call', (fn_term,) + tuple(args), kwt)
+            self.emit(st, 'call', e, targets=[], target_kind=tgt.kind, callee_name=name, recv=None, args=tuple(args), kw=kwt, via=tgt.via,
+                      expr=e, result=r, func_term=fn_term)
+            st.events[-1].data['_invalidate'] = ('all',)
+            return r
         if recv is not None:
             r = App('.' + name, (recv,) + tuple(args), kwt)
         else:
